@@ -56,6 +56,16 @@ func (f *funcAssertionNode) DefaultTrigger() annotation.ProducingAnnotationTrigg
 		return &annotation.ProduceTriggerNever{}
 	}
 
+	// A contracted callee of this package has a call-site-specific result site, onto which its
+	// triggers are duplicated gated on the argument site of the call (see getFuncReturnProducers).
+	// The shared result site is never connected to the argument of this call, so using it here
+	// would hide a nil argument.
+	if root := f.Root(); root != nil && f.call != nil && root.HasContract(f.decl) && f.decl.Pkg() == root.Pass().Pkg {
+		return &annotation.FuncReturn{
+			TriggerIfNilable: &annotation.TriggerIfNilable{
+				Ann: annotation.NewCallSiteRetKey(f.decl, 0, root.LocationOf(f.call))}}
+	}
+
 	if f.decl.Type().(*types.Signature).Recv() != nil {
 		return &annotation.MethodReturn{
 			TriggerIfNilable: &annotation.TriggerIfNilable{
